@@ -8,7 +8,7 @@ use crate::val::Val;
 pub const U64MAX: u64 = u64::MAX;
 
 pub fn ent(len: u64) -> EntityCfg {
-    EntityCfg { len, etag: None, mtime_ns: None, hdrs: vec![], recipes: vec![], default_recipe: vec![Op::RestOrFault], split: false, mtime_before_epoch: false, volatile_hdrs: false }
+    EntityCfg { len, etag: None, mtime_ns: None, hdrs: vec![], recipes: vec![], default_recipe: vec![Op::RestOrFault], split: false, mtime_before_epoch: false, volatile_hdrs: false, slow_etag_ms: 0 }
 }
 
 pub fn case(ent: EntityCfg, method: &str, headers: Vec<(String, Vec<u8>)>, class: String) -> ServeCase {
